@@ -118,15 +118,52 @@ func RefID(t sema.Type) string {
 		}
 		return sb.String()
 	case *sema.CompositeType:
+		if name, ok := refLeafNames[t]; ok {
+			return name
+		}
 		return RefLocationTypeID(t.Location, qualifiedID(t.Identifier, t.GetContainerType()))
 	case *sema.InterfaceType:
+		if name, ok := refLeafNames[t]; ok {
+			return name
+		}
 		return RefLocationTypeID(t.Location, qualifiedID(t.Identifier, t.GetContainerType()))
 	case *sema.EntitlementType:
 		return RefLocationTypeID(t.Location, qualifiedID(t.Identifier, t.GetContainerType()))
 	case *sema.EntitlementMapType:
 		return RefLocationTypeID(t.Location, qualifiedID(t.Identifier, t.GetContainerType()))
 	}
+	if name, ok := refLeafNames[t]; ok {
+		return name
+	}
 	return string(t.ID())
+}
+
+// refLeafNames: the language-level names of the built-in leaf types, written out
+// by hand (so that the three representations are compared with something that
+// is not one of them). Native composites not listed here fall back to the checker's ID.
+var refLeafNames = map[sema.Type]string{
+	sema.IntType: "Int", sema.Int8Type: "Int8", sema.Int16Type: "Int16", sema.Int32Type: "Int32", sema.Int64Type: "Int64",
+	sema.Int128Type: "Int128", sema.Int256Type: "Int256",
+	sema.UIntType: "UInt", sema.UInt8Type: "UInt8", sema.UInt16Type: "UInt16", sema.UInt32Type: "UInt32", sema.UInt64Type: "UInt64",
+	sema.UInt128Type: "UInt128", sema.UInt256Type: "UInt256",
+	sema.Word8Type: "Word8", sema.Word16Type: "Word16", sema.Word32Type: "Word32", sema.Word64Type: "Word64",
+	sema.Word128Type: "Word128", sema.Word256Type: "Word256",
+	sema.Fix64Type: "Fix64", sema.UFix64Type: "UFix64", sema.Fix128Type: "Fix128", sema.UFix128Type: "UFix128",
+	sema.NumberType: "Number", sema.SignedNumberType: "SignedNumber", sema.IntegerType: "Integer", sema.SignedIntegerType: "SignedInteger",
+	sema.FixedSizeUnsignedIntegerType: "FixedSizeUnsignedInteger", sema.FixedPointType: "FixedPoint", sema.SignedFixedPointType: "SignedFixedPoint",
+	sema.PathType: "Path", sema.StoragePathType: "StoragePath", sema.CapabilityPathType: "CapabilityPath",
+	sema.PublicPathType: "PublicPath", sema.PrivatePathType: "PrivatePath",
+	sema.BoolType: "Bool", sema.CharacterType: "Character", sema.StringType: "String", sema.MetaType: "Type",
+	sema.HashableStructType: "HashableStruct", sema.TheAddressType: "Address", sema.NeverType: "Never", sema.VoidType: "Void",
+	sema.AnyType: "Any", sema.AnyStructType: "AnyStruct", sema.AnyResourceType: "AnyResource",
+	sema.AnyStructAttachmentType: "AnyStructAttachment", sema.AnyResourceAttachmentType: "AnyResourceAttachment",
+	sema.AccountType: "Account", sema.Account_StorageType: "Account.Storage", sema.Account_ContractsType: "Account.Contracts",
+	sema.Account_KeysType: "Account.Keys", sema.Account_InboxType: "Account.Inbox", sema.Account_CapabilitiesType: "Account.Capabilities",
+	sema.Account_StorageCapabilitiesType: "Account.StorageCapabilities", sema.Account_AccountCapabilitiesType: "Account.AccountCapabilities",
+	sema.DeployedContractType: "DeployedContract", sema.BlockType: "Block", sema.AccountKeyType: "AccountKey", sema.PublicKeyType: "PublicKey",
+	sema.SignatureAlgorithmType: "SignatureAlgorithm", sema.HashAlgorithmType: "HashAlgorithm", sema.RoundingRuleType: "RoundingRule",
+	sema.StorageCapabilityControllerType: "StorageCapabilityController", sema.AccountCapabilityControllerType: "AccountCapabilityController",
+	sema.DeploymentResultType: "DeploymentResult", sema.StringBuilderType: "StringBuilder", sema.StructStringerType: "StructStringer",
 }
 
 // RefAccessID is "auth(<sorted entitlement IDs joined by , or |>)" or "" for an
